@@ -339,6 +339,9 @@ func TestC14Release(t *testing.T) {
 					mu.Unlock()
 					if fired {
 						closedBelow++
+						// (the instance's Close method may have run on another goroutine - a context watcher's:
+						// the Close it called is then still under way; it is given time to finish)
+						waitFor(func() bool { return s.Context().Err() != nil }, 5*time.Second)
 					} else {
 						_ = s.Close()
 					}
@@ -383,7 +386,7 @@ func TestC14Release(t *testing.T) {
 		if closeFails {
 			labels = append(labels, "failing-Close-methods")
 		}
-		canon := fmt.Sprintf("%s || N=%d nest=%d ctx=%v gets=%v faultEvery=%d parentScope=%v childFirst=%v nestInside=%v", cfg, N, nest, ctxKinds, getIDs, faultEvery, useParentScope, closeChildFirst, nestInside)
+		canon := fmt.Sprintf("%s || N=%d nest=%d ctx=%v gets=%v faultEvery=%d parentScope=%v childFirst=%v nestInside=%v closedFromBelow=%v(%d)", cfg, N, nest, ctxKinds, getIDs, faultEvery, useParentScope, closeChildFirst, nestInside, closedFromBelow, closedBelow)
 		col.Case(N >= 10 || nest > 0 || failedCreates > 0, canon, canon, labels...)
 		if f == nil {
 			if !waitFor(func() bool { return runtime.NumGoroutine() <= base }, 5*time.Second) {
